@@ -62,6 +62,36 @@ def check(run, tier):
     run_calls(run, life)
     # well ids that do not exist: every record emitting operation must raise without emitting a record
     run_programs(run, targeted.badwell_programs("evo") + targeted.badwell_programs("fluent"))
+    # the numbers that end up in the records: aspirate / dispense / reagent distributions on troughs of 1 .. 26 virtual rows
+    # and plates of many shapes, both devices (C08.emitted, C08.rrange)
+    from fractions import Fraction
+
+    from .. import gen
+    from ..drivers import programs
+
+    L = lambda ws: {"k": "l", "x": [list(w) for w in ws]}
+    S = lambda x: {"k": "s", "x": x}
+    progs = []
+    rt = rng("C08-twin")
+    for dev in ("evo", "fluent"):
+        for V in ((1, 2, 8, 9, 12, 26) if tier == "quick" else range(1, 27)):
+            for C in (1, 3):
+                lws = [gen.mk_plate("plate", 8, 12, 0, 300, [0] * 96), gen.mk_trough("trough", V, C, 0, 9000, [4000] * C)]
+                h = gen.header(f"C08/trough-{V}x{C}", dev, Fraction(1), 950, lws, flags={"comp": False, "norm": False})
+                rows = sorted({0, V // 2, V - 1})
+                h["ops"] = [{"op": "aspirate", "lw": 1, "wells": L([(r_, C - 1) for r_ in rows]), "vols": S(10), "label": "from the last column"},
+                            {"op": "dispense", "lw": 1, "wells": L([(r_, 0) for r_ in reversed(rows)]), "vols": S(5), "label": "into the first"},
+                            {"op": "distribute", "src": 1, "col": C - 1, "dst": 0, "dw": L([(1, 0), (2, 0), (5, 0), (0, 1)]), "vol": 20, "label": "to a plate"},
+                            {"op": "distribute", "src": 1, "col": 0, "dst": 0, "dw": L([(r_, 11) for r_ in range(8)]), "vol": 10, "label": "a whole column"}]
+                if C > 1:
+                    h["ops"].append({"op": "distribute", "src": 1, "col": 0, "dst": 1, "dw": L([(0, 1), (V - 1, 2)]), "vol": 7, "label": "trough to trough"})
+                h["ops"].append({"op": "transfer", "src": 1, "sw": L([(V - 1, C - 1), (0, 0)]), "dst": 0, "dw": L([(7, 11), (0, 0)]), "vols": {"k": "l", "x": [3, 4]}, "label": "corners", "wash": 1})
+                progs.append(h)
+    for i in range(40 if tier == "quick" else 800):
+        dev = "evo" if i % 2 == 0 else "fluent"
+        progs.append(programs.worklist_program(rt, f"C08/r{i}", dev, rt.randint(2, 5), maxunits=40, wlmax=40, comps=False, big_geom=True, small=False,
+                                               weights={"transfer": 1, "distribute": 2, "aspirate": 2, "dispense": 2, "add": 0, "remove": 0}))
+    run_programs(run, progs)
     run.extra["exhaustive"] = tier == "thorough"
     run.assumptions += [
         "the harness formats well identifiers itself (row letter + two-digit column) and trusts its own row-major enumeration",
